@@ -18,7 +18,7 @@ void vm_run_isolated (void (*fn) (long), long idx) {
   if (pid < 0) { vx_fail ("VM-HARNESS:fork", "fork failed"); return; }
   if (pid == 0) {
     prctl (PR_SET_PDEATHSIG, SIGKILL);
-    alarm (120);
+    alarm (20);
     fn (idx);
     fflush (0);
     syscall (SYS_exit_group, 0);
